@@ -151,6 +151,9 @@ var polluters = []string{
 	`var b = _.bindings; b.nested = b.nested || {}; b.nested.deep = {"changed": true}; b.list = [9,9,9]; delete b.keep; return {};`,
 	`JSON.stringify = function(){ return "broken"; }; Math.max = function(){ return -1; }; return _.bindings;`,
 	`_.bindings = null; String.prototype.trim = function(){ return "x"; }; return {};`,
+	// in-place updates at every depth of the bindings, through arrays and objects alike
+	`(function w(x){ if (Array.isArray(x)) { for (var i = 0; i < x.length; i++) { w(x[i]); } if (x.length > 0) { x[0] = "polluted"; } } else if (x !== null && typeof x === "object") { for (var k in x) { w(x[k]); } x.polluted = true; } })(_.bindings); return {};`,
+	`(function w(x){ if (Array.isArray(x)) { for (var i = 0; i < x.length; i++) { w(x[i]); } } else if (x !== null && typeof x === "object") { for (var k in x) { w(x[k]); } x.polluted = true; } })(_.bindings); throw "after polluting";`,
 }
 
 const probeScript = `
@@ -201,7 +204,8 @@ func runIsolation(cfg Config) {
 	}
 	for i := 0; i < cfg.N; i++ {
 		mark(i)
-		bs := match.Bindings{"keep": "me", "nested": map[string]interface{}{"deep": map[string]interface{}{"v": 1.0}}, "list": []interface{}{1.0, 2.0}, "n": float64(g.Intn(5))}
+		bs := match.Bindings{"keep": "me", "nested": map[string]interface{}{"deep": map[string]interface{}{"v": 1.0}}, "list": []interface{}{1.0, 2.0}, "n": float64(g.Intn(5)),
+			"orders": []interface{}{map[string]interface{}{"paid": false}, []interface{}{map[string]interface{}{"x": 1.0}}}, "rand": g.Value(3)}
 		bs0 := gen.Canon(map[string]interface{}(bs))
 		props := core.StepProps{"top": "orig", "nested": map[string]interface{}{"k": 1.0}}
 		props0 := gen.Canon(map[string]interface{}(props))
@@ -246,7 +250,7 @@ func runIsolation(cfg Config) {
 			interp.Exec(ctx, bs, props, propsMutator, nil)
 			probe["propsUntouched"] = gen.Canon(map[string]interface{}(props)) == props0
 		}
-		enc.Encode(probeLine(i, map[string]interface{}{"polluter": pol, "props": feat}, probe, feat))
+		enc.Encode(probeLine(i, map[string]interface{}{"polluter": pol, "props": feat, "bindings": json.RawMessage(bs0)}, probe, feat))
 	}
 }
 
